@@ -14,6 +14,7 @@ def handle (line : String) : String :=
   | "HASH" :: rest => Hash.hashLine rest
   | "DIFF" :: rest => Diff.diffLine rest
   | "DIFFX" :: rest => Diff.diffxLine rest
+  | "DELTA" :: rest => Delta.deltaLine rest
   | "SAVEFS" :: rest => SaveFS.saveLine Wire.decStr Wire.encStr rest
   | _ => "bad-op"
 
